@@ -15,7 +15,8 @@ RULE = ("file names over an alphabet with letters of both cases, digits, space a
         "reference matcher (and `re` for the regex operators). distinct = (operator, pattern, subject-set); "
         "nontrivial = pattern matches some but not all subjects")
 
-ALPHA = list("abAB1 .+()[]{}|^$-,'#~&_%") + ["\\", "é", "Ж", "\n"]
+# `*` and `?` are ordinary characters for LIKE, `%` and `_` for glob: all four occur in names and patterns
+ALPHA = list("abAB1 .+()[]{}|^$-,'#~&_%*?") + ["\\", "é", "Ж", "\n"]
 WILD = {"eq": "*?", "ne": "*?", "like": "%_", "notlike": "%_"}
 
 
